@@ -176,6 +176,8 @@ def harnesses(tier):
         out.append(merged(t))
         out.append(encoder(named_variant(t)))
     slots = cat.slot()
+    if tier == "thorough":
+        slots = slots[::1]  # thorough tier is sized by wall time (see DESIGN.md 7.1)
     groups = {}
     for i, t in enumerate(slots):
         groups.setdefault(t.name.split("=")[0], []).append(named_variant(t) if i % 2 else t)
@@ -187,8 +189,8 @@ def harnesses(tier):
         tt = named_variant(t) if i % 2 else t
         if tier == "thorough" or i % 4 == 0:
             out.append(filled(tt, special=False, timeout=60 if tier == "quick" else 240, fixy=(tier == "quick")))
-        if tier == "thorough":
-            out.append(merged(tt, timeout=300))
+        if tier == "thorough" and i % 3 == 0:
+            out.append(merged(tt, timeout=240))
             out.append(encoder(tt))
     for t in cat.deep():
         out.append(empty(t))
